@@ -843,7 +843,7 @@ package orda
 //@   props C01 C02 C04 C19
 //@ func (*jsonObject).putCommon
 //@   bounded doctree json values are outside the Map contracts (stated for *timedNode values)
-//@   props C01 C02 C03 C19
+//@   props C01 C02 C03 C14 C19
 //@ func (*jsonObject).deleteCommonInObject
 //@   bounded doctree json values are outside the Map contracts (stated for *timedNode values)
 //@   props C01 C02 C03 C19
